@@ -240,8 +240,13 @@ void ezc3d::ParametersNS::Parameters::write(std::fstream &f) const
 
     // Write each groups
     std::streampos dataStartPosition; // Special parameter in POINT group
-    for (size_t i=0; i < nbGroups(); ++i)
+    for (size_t i=0; i < nbGroups(); ++i){
+        // Groups are stored at the position of their id, the unnamed ones only fill the unused ids
+        // (an empty name would be read back as the end of the parameters)
+        if (group(i).name().empty() && group(i).nbParameters() == 0)
+            continue;
         group(i).write(f, -static_cast<int>(i+1), dataStartPosition);
+    }
 
     // Move the cursor to a beginning of a block
     std::streampos actualPos(f.tellg());
